@@ -2,6 +2,7 @@
 package c14
 
 import (
+	"sort"
 	"encoding/json"
 	"fmt"
 	"os"
@@ -34,6 +35,11 @@ type FaultSpec struct {
 	Place string `json:"place"` // before | partial | after
 	Bytes int    `json:"bytes"` // partial: bytes written before the error
 	Count int    `json:"count"` // consecutive matching operations that fail
+	// Sticky (remove only): the removals keep failing until the writer is closed - what is left in
+	// the directory then is judged
+	Sticky bool `json:"sticky,omitempty"`
+	// Kind, if set, restricts the fault to items of that kind (".snp" / ".seg")
+	Kind string `json:"kind,omitempty"`
 }
 
 // Case is one faulty run.
@@ -82,6 +88,8 @@ func gen(t *rapid.T) Case {
 	nf := 1
 	if vlib.Thorough() && rapid.Bool().Draw(t, "two") {
 		nf = 2
+	} else if !vlib.Thorough() && rapid.IntRange(0, 2).Draw(t, "twoQuick") == 0 {
+		nf = 2 // two separate failure episodes in one writer lifetime
 	}
 	for i := 0; i < nf; i++ {
 		f := FaultSpec{Seq: rapid.IntRange(4, 70).Draw(t, "seq"),
@@ -89,13 +97,18 @@ func gen(t *rapid.T) Case {
 			Place: rapid.SampledFrom([]string{"before", "partial", "after"}).Draw(t, "place"),
 			Bytes: rapid.SampledFrom([]int{0, 1, 2, 7, 16, 100, 4095, 4096}).Draw(t, "bytes"),
 			Count: rapid.SampledFrom([]int{1, 1, 1, 2, 3, 5}).Draw(t, "count")}
+		if f.Ops == "remove" && rapid.Bool().Draw(t, "sticky") {
+			f.Sticky, f.Count, f.Place = true, 1<<20, "before"
+			// mostly snapshots only: their segments can then be removed while they stay
+			f.Kind = rapid.SampledFrom([]string{index.ItemKindSnapshot, index.ItemKindSnapshot, index.ItemKindSnapshot, ""}).Draw(t, "stickyKind")
+		}
 		c.Faults = append(c.Faults, f)
 	}
 	return c
 }
 
 type stats struct {
-	injected, injectedBg, errBatches, asyncErrs, images, ackedAfter, heldUses, reopenErr, reopenSurvived, reopenFellBack int
+	injected, injectedBg, errBatches, asyncErrs, images, ackedAfter, heldUses, reopenErr, reopenSurvived, reopenFellBack, leftoverSnaps int
 	ntKeys                                                         []string
 	kinds                                                          map[string]int
 }
@@ -122,6 +135,9 @@ func prop(c Case, st *stats) (fail *vlib.Failure) {
 				continue
 			}
 			if f.Ops != "any" && f.Ops != op {
+				continue
+			}
+			if f.Kind != "" && f.Kind != kind {
 				continue
 			}
 			remaining[i]--
@@ -230,10 +246,12 @@ func prop(c Case, st *stats) (fail *vlib.Failure) {
 			return f
 		}
 	}
-	// faults clear now at the latest
+	// faults clear now at the latest (sticky removal faults stay to the end)
 	mu.Lock()
 	for i := range remaining {
-		remaining[i] = 0
+		if !(c.Faults[i].Sticky && c.Faults[i].Ops == "remove") {
+			remaining[i] = 0
+		}
 	}
 	mu.Unlock()
 	// one more (empty-effect) acknowledged round so that "the next acknowledgement covers everything"
@@ -264,6 +282,22 @@ func prop(c Case, st *stats) (fail *vlib.Failure) {
 	// this is judged once the writer is closed, not at the moment the call returns)
 	if st.errBatches > 0 && st.asyncErrs == 0 {
 		return vlib.Failf("async-error-missing", "%d batches returned the persist error but the asynchronous error callback never fired", st.errBatches)
+	}
+	// batches are issued one after the other: each one that returned the error waited for a
+	// persist attempt of its own, and every failed attempt fires the callback
+	bgFailed := 0
+	for k, n := range st.kinds {
+		if (strings.HasPrefix(k, "persister:") || strings.HasPrefix(k, "merger:")) && (strings.Contains(k, ":persist") || strings.Contains(k, ":load")) {
+			bgFailed += n
+		}
+	}
+	if st.asyncErrs < bgFailed {
+		// every failed persist / load of the persister or merger ends one attempt, and every failed
+		// attempt is reported through the callback - also the second failure with the same text
+		return vlib.Failf("async-error-missing", "%d persist/load operations of the persister and merger failed (%v) but the asynchronous error callback fired only %d times", bgFailed, st.kinds, st.asyncErrs)
+	}
+	if st.asyncErrs < st.errBatches {
+		return vlib.Failf("async-error-missing", "%d batches (issued one after the other) returned the persist error but the asynchronous error callback fired only %d times", st.errBatches, st.asyncErrs)
 	}
 	if !c.Conf.Unsafe && st.errBatches == 0 && st.injectedBg > 0 {
 		// a fault on a persister/merger operation in safe mode: either a batch saw it, or it hit
@@ -315,6 +349,42 @@ func prop(c Case, st *stats) (fail *vlib.Failure) {
 		if _, f := vlib.CheckRecovered(rr.Rec, m, im, recd); f != nil {
 			f.Msg = "(faulty run) " + f.Msg
 			return f
+		}
+	}
+	// every snapshot file left in the directory after Close is what it looks like: a complete
+	// item, i.e. it opens with all the segments it names (a snapshot whose removal failed stays
+	// until the removal is retried - and so must its segments; "nothing on disk can be mistaken
+	// for a complete item")
+	var final map[string]string
+	for i := len(rr.Rec.Trace) - 1; i >= 0 && final == nil; i-- {
+		final = rr.Rec.Trace[i].After
+	}
+	var snaps []string
+	for name := range final {
+		if strings.HasSuffix(name, index.ItemKindSnapshot) {
+			snaps = append(snaps, name)
+		}
+	}
+	sort.Strings(snaps)
+	if len(snaps) > 1 {
+		for _, sn := range snaps[:len(snaps)-1] { // the newest one is what the images above opened
+			sub := &vlib.Image{Files: map[string]string{sn: final[sn]}, Kind: "boundary", Note: "only snapshot " + sn + " of the directory left after Close"}
+			for name, h := range final {
+				if !strings.HasSuffix(name, index.ItemKindSnapshot) {
+					sub.Files[name] = h
+				}
+			}
+			recd, f := vlib.OpenImage(c.Conf, sub, rr.Rec.Blobs, imgDir, ids)
+			if f != nil {
+				return f
+			}
+			st.leftoverSnaps++
+			if recd.Obs == nil {
+				return vlib.Failf("leftover-snapshot-unloadable", "after the faulty run and Close the directory still lists snapshot %s (next to %s), but it cannot be opened: %s", sn, snaps[len(snaps)-1], recd.OpenErr)
+			}
+			if _, why := vlib.MatchState(m.States, recd.Obs.Keys(), 0, len(m.States)-1); why != "" {
+				return vlib.Failf("leftover-snapshot-"+why, "snapshot %s left in the directory after Close opens with %v", sn, recd.Obs.Keys())
+			}
 		}
 	}
 	for j, a := range rr.Rec.Ack {
@@ -459,6 +529,7 @@ func TestC14Faults(t *testing.T) {
 		ev.AddExtra("faults_injected", st.injected)
 		ev.AddExtra("reopen_faults_reported_by_OpenWriter", st.reopenErr)
 		ev.AddExtra("reopen_faults_survived_by_OpenWriter", st.reopenSurvived)
+		ev.AddExtra("older_snapshots_left_after_Close_opened_on_their_own", st.leftoverSnaps)
 		ev.AddExtra("reopen_load_faults_answered_by_falling_back_to_an_older_snapshot", st.reopenFellBack)
 		ev.AddExtra("uses_of_readers_held_across_faults", st.heldUses)
 		ev.AddExtra("faults_on_persister_or_merger", st.injectedBg)
